@@ -113,7 +113,7 @@ type c28Scenario struct {
 
 // runC28 enumerates every crash point of one generated scenario, then samples transient faults.
 func runC28(x *simkit.Exec) {
-	kinds := []string{"upload", "shipper", "replicate", "delete", "replicate-vs-delete"}
+	kinds := []string{"upload", "shipper", "replicate", "delete", "replicate-vs-delete", "delete-vs-delete"}
 	sc := &c28Scenario{kind: kinds[x.Draw("kind", len(kinds))]}
 	nblocks := 1
 	if sc.kind == "shipper" || sc.kind == "replicate" {
@@ -131,13 +131,37 @@ func runC28(x *simkit.Exec) {
 			Thanos: sc.kind != "shipper" || x.Bool("thanosmeta", 1, 2),
 		}
 		sc.blocks = append(sc.blocks, sp)
-		if _, err := fixtures.WriteSynth(sc.srcDir, sp); err != nil {
+		dir, err := fixtures.WriteSynth(sc.srcDir, sp)
+		if err != nil {
 			x.Troublef("fixture: %v", err)
 			return
+		}
+		if sp.Thanos && (sc.kind == "upload" || sc.kind == "shipper") && x.Bool("inheritedFileList", 1, 3) {
+			// a block derived from another one (downsampled, rewritten) starts from a copy of its parent's
+			// meta.json, file list included: what the local meta.json says about files is not about this block
+			m, err := metadata.ReadFromDir(dir)
+			if err != nil {
+				x.Troublef("fixture: %v", err)
+				return
+			}
+			m.Thanos.Files = []metadata.File{{RelPath: "chunks/000001", SizeBytes: int64(sp.SegSize + 1 + x.Range("parentSegDelta", 1, 40))},
+				{RelPath: "index", SizeBytes: int64(sp.IndexSize + x.Range("parentIdxDelta", 1, 40))}, {RelPath: "meta.json"}}
+			if err := m.WriteToDir(log.NewNopLogger(), dir); err != nil {
+				x.Troublef("fixture: %v", err)
+				return
+			}
+			x.Probe("c28.local_meta_with_inherited_file_list")
 		}
 	}
 	x.Sample = map[string]any{"scenario": sc.kind, "blocks": nblocks, "segments": sc.blocks[0].Segments, "upload_concurrency": sc.concurrency}
 
+	if sc.kind == "delete-vs-delete" {
+		x.Nontrivial = true
+		for i := 0; i < 6 && !x.Failed(); i++ {
+			sc.executeTwoDeleters(x, fmt.Sprintf("two%d", i))
+		}
+		return
+	}
 	if sc.kind == "replicate-vs-delete" {
 		x.Nontrivial = true
 		for i := 0; i < 6 && !x.Failed(); i++ {
@@ -358,6 +382,82 @@ func (sc *c28Scenario) executeRace(x *simkit.Exec, salt string) {
 			s.Probe("c28.replicated_despite_concurrent_deletion")
 		}
 	})
+}
+
+// executeTwoDeleters lets two cleaners (compactor shards, or the cleaner and the partial-upload cleanup)
+// delete the same marked block at once; one of them may crash on the way. Whatever the interleaving, the
+// deletion mark stays until the other files are gone, and a later deletion completes the job.
+func (sc *c28Scenario) executeTwoDeleters(x *simkit.Exec, salt string) {
+	x.Bubble(salt, func(s *simkit.Sim) {
+		target := simbucket.New("target")
+		target.LexOrder = sc.lexOrder
+		target.Attach(s)
+		sp := sc.blocks[0]
+		id := sp.ID.String()
+		mon := &visibilityMonitor{b: target, deleting: map[string]bool{id: true}}
+		target.AfterOp = func(op simbucket.Op) {
+			if sig, det := mon.check(); sig != "" {
+				s.Violate("visible-block-complete", sc.kind+":"+sig, "after %s: %s\nbucket operations:\n%s", op, det, simbucket.FormatLog(target.Log(), 40))
+			}
+		}
+		ctx, cancel := context.WithCancel(context.Background())
+		defer cancel()
+		putBlock(target.Inner, sc.srcDir, sp, true)
+		mark, _ := json.Marshal(metadata.DeletionMark{ID: sp.ID, DeletionTime: 1, Version: metadata.DeletionMarkVersion1})
+		_ = target.Inner.Upload(ctx, path.Join(id, metadata.DeletionMarkFilename), strings.NewReader(string(mark)))
+		ha, hb := target.Handle("cleanerA"), target.Handle("cleanerB")
+		if k := x.Tape.Draw("crashB", 12); k > 0 {
+			s.TargetNth("crash:cleanerB", k)
+		}
+		var errA, errB error
+		s.Go("cleanerA", func() { errA = block.Delete(ctx, log.NewNopLogger(), ha, sp.ID) })
+		s.Go("cleanerB", func() { errB = block.Delete(ctx, log.NewNopLogger(), hb, sp.ID) })
+		s.Loop()
+		if s.Stuck() {
+			x.Troublef("c28 %s/%s: scheduler stuck, parked=%v", sc.kind, salt, s.ParkedIDs())
+			return
+		}
+		if x.Failed() {
+			return
+		}
+		if errA != nil || errB != nil {
+			s.Probe("c28.concurrent_deleter_gave_up")
+		}
+		if hb.Crashed() {
+			s.Probe("c28.concurrent_deleter_crashed")
+		}
+		// the next iteration's deletion finishes whatever is left
+		hc := target.Handle("cleanerC")
+		var errC error
+		s.Go("cleanerC", func() {
+			for _, n := range sortedNames(target.Inner.Objects()) {
+				if strings.HasPrefix(n, id+"/") {
+					errC = block.Delete(ctx, log.NewNopLogger(), hc, sp.ID)
+					return
+				}
+			}
+		})
+		s.Loop()
+		if errC != nil {
+			x.Troublef("c28 %s/%s: final deletion failed without any fault: %v", sc.kind, salt, errC)
+			return
+		}
+		for n := range target.Inner.Objects() {
+			if strings.HasPrefix(n, id+"/") {
+				s.Violate("operation-completes", sc.kind+":leftover", "block %s: %s left after a successful Delete", target.Canon(id), n)
+				return
+			}
+		}
+	})
+}
+
+func sortedNames(m map[string][]byte) []string {
+	out := make([]string, 0, len(m))
+	for n := range m {
+		out = append(out, n)
+	}
+	sort.Strings(out)
+	return out
 }
 
 func putBlock(b *objstore.InMemBucket, srcDir string, sp fixtures.SynthSpec, withFiles bool) {
